@@ -7,6 +7,7 @@ import (
 	"sort"
 
 	"github.com/KevoDB/kevo/pkg/config"
+	"github.com/KevoDB/kevo/pkg/verifhook"
 )
 
 // TieredCompactionStrategy implements a tiered compaction strategy
@@ -246,6 +247,7 @@ func (s *TieredCompactionStrategy) CompactRange(minKey, maxKey []byte) error {
 		return fmt.Errorf("compaction failed: %w", err)
 	}
 
+	verifhook.Point("compaction.range.after_compact")
 	// Gather all input file paths for cleanup
 	var inputPaths []string
 	for _, files := range task.InputFiles {
@@ -259,6 +261,7 @@ func (s *TieredCompactionStrategy) CompactRange(minKey, maxKey []byte) error {
 		return fmt.Errorf("failed to clean up compacted files: %w", err)
 	}
 
+	verifhook.Point("compaction.range.after_delete")
 	// Reload SSTables to refresh our file list
 	if err := s.LoadSSTables(); err != nil {
 		return fmt.Errorf("failed to reload SSTables: %w", err)
